@@ -1830,6 +1830,310 @@ def g_conv(g, p):
     return [x, w, bias, stride, pad, dil, False, [0] * nd, groups], {}
 
 
+def g_misc(g, p):
+    """Overloads outside the original families (added in the coverage-extension round): ternary elementwise, activations with a weight,
+    losses, pixel shuffles, einsum, determinants, up-sampling, index_put / masked_scatter, prims reductions, predicates, 3-d pools."""
+    form = p["form"]
+    t = T().torch
+    if form in ("addcmul", "addcdiv"):
+        dt = g.dt("F" if form == "addcdiv" else "FI")
+        s = g.shape()
+        mk = lambda pool: g.tensor(g.pick([s, s, g.bshape(s), []]), dt, pool)  # noqa: E731
+        kwargs = {}
+        if g.chance(70):
+            kwargs["value"] = g.scalar(dt, force=g.pick([None, None, "int"]))
+        return [g.tensor(s, dt, "small"), mk("small"), mk("nz" if form == "addcdiv" else "small")], kwargs
+    if form in ("lerp_s", "lerp_t"):
+        dt = g.dt("F")
+        s = g.shape()
+        end = g.tensor(g.pick([s, s, g.bshape(s)]), dt, "small")
+        w = g.pick([0.0, 0.25, 0.5, 1.0, 1.5, -0.5, 1, 0]) if form == "lerp_s" else g.tensor(g.pick([s, g.bshape(s), []]), dt, "unit")
+        return [g.tensor(s, dt, "small"), end, w], {}
+    if form == "glu":
+        dt = g.dt("F")
+        s = g.shape(min_rank=1, dims=DIMS_NZ if g.chance(85) else DIMS)
+        d = g.dim(len(s))
+        s[d] = 2 * g.pick([0, 1, 1, 2, 3])
+        args = [g.tensor(s, dt, "smooth")]
+        if d not in (-1, len(s) - 1) or g.b():
+            args.append(d)
+        return args, {}
+    if form == "prelu":
+        dt = g.dt("F")
+        s = g.shape(min_rank=0, dims=DIMS_NZ if g.chance(85) else DIMS)
+        c = s[1] if len(s) >= 2 else 1
+        if p.get("kernel"):  # _prelu_kernel: the weight as aten::prelu hands it over - reshaped to [1, C, 1, ...] (rank 0 / 1: one element)
+            ws = [] if not s else [1] if len(s) == 1 else [1, g.pick([1, c])] + [1] * (len(s) - 2)
+            return [g.tensor(s, dt, "small"), g.tensor(ws, dt, "small")], {}
+        return [g.tensor(s, dt, "small"), g.tensor(g.pick([[1], [c]]) if len(s) >= 2 else g.pick([[1], []]), dt, "small")], {}
+    if form == "cross":
+        dt = g.dt("FI")
+        s = g.shape(min_rank=1, dims=DIMS_NZ)
+        d = g.dim(len(s))
+        s[d] = 3
+        other_shape = list(s)
+        if g.chance(30):  # broadcast off the cross dim
+            for k in range(len(s)):
+                if k != d % len(s) and g.chance(50):
+                    other_shape[k] = 1
+        a, b = g.tensor(s, dt, "small"), g.tensor(other_shape, dt, "small")
+        if p.get("linalg"):
+            return [a, b], ({"dim": d} if (d not in (-1, len(s) - 1) or g.b()) else {})
+        return [a, b] + ([d] if g.chance(75) else []), {}
+    if form == "mse_loss":
+        dt = g.dt("F")
+        s = g.shape()
+        args = [g.tensor(s, dt, "small"), g.tensor(s, dt, "small")]
+        if g.chance(75):
+            args.append(g.pick([0, 1, 2]))
+        return args, {}
+    if form in ("pixel_shuffle", "pixel_unshuffle"):
+        dt = g.dt("FI")
+        r = g.pick([1, 2, 2, 3])
+        lead = [g.pick([1, 2, 3])] * g.pick([0, 1, 1, 2])  # no empty batch: ATen returns a clone of an empty input, shape unchanged
+        c, h, w = g.pick([1, 2]), g.pick([1, 2, 3]), g.pick([1, 2, 3])
+        s = lead + ([c * r * r, h, w] if form == "pixel_shuffle" else [c, h * r, w * r])
+        return [g.tensor(s, dt, "small"), r], {}
+    if form == "einsum":
+        dt = g.dt("F")
+        n = {"i": g.pick([1, 2, 3]), "j": g.pick([1, 2, 4]), "k": g.pick([1, 3, 0]), "b": g.pick([1, 2])}
+        eq = g.pick(["ij,jk->ik", "ij,jk", "bij,bjk->bik", "ij->ji", "ii->i", "ii", "ij->", "ij,ij->", "i,i->", "i,j->ij", "bij->bi", "ij,kj->ik",
+                     "...ij,...jk->...ik", "ij, jk -> ik", "i,i,i->i", "ij,ij->ij", "bij,bkj->bik", "ijk->kji"])
+        lhs = eq.replace(" ", "").split("->")[0].split(",")
+        ops = []
+        for term in lhs:
+            shp = ([n["b"]] if term.startswith("...") else []) + [n["i"] if (ch == "i" or term in ("ii",)) else n[ch] for ch in term.replace("...", "")]
+            ops.append(g.tensor(shp, dt, "small"))
+        return [eq, ops], {}
+    if form == "instance_norm":
+        dt = g.dt("F32")
+        n, c = g.pick([1, 2]), g.pick([1, 2, 3])
+        sp = [g.pick([2, 3, 4]) for _ in range(g.pick([1, 2, 2, 3]))]
+        x = g.tensor([n, c] + sp, dt, "smooth")
+        w = g.tensor([c], dt, "smooth") if g.chance(70) else None
+        b = g.tensor([c], dt, "smooth") if g.chance(70) else None
+        use_stats = g.chance(70)
+        rm = g.tensor([c], dt, "smooth") if (not use_stats or g.chance(30)) else None
+        rv = g.tensor([c], dt, "pos") if rm is not None else None
+        g.tol_scale = 400.0
+        return [x, w, b, rm, rv, use_stats, g.pick([0.1, 0.0, 0.5]), g.pick([1e-5, 1e-3, 0.5]), False], {}
+    if form in ("nll_loss", "nll_loss_forward", "cross_entropy"):
+        dt = g.dt("F32")
+        c = g.pick([1, 2, 3, 5])
+        n = g.pick([1, 2, 3, 0] if form != "cross_entropy" else [1, 2, 3])
+        extra = [g.pick([1, 2, 3]) for _ in range(g.pick([0, 0, 0, 1, 2]))]
+        batched = g.chance(80) or bool(extra)
+        xs = ([n] if batched else []) + [c] + extra
+        ts = ([n] if batched else []) + extra
+        x = g.tensor(xs, dt, "small")
+        tgt = make_tensor(ts, "int64", "small", g.i(0, 2**31 - 1))
+        ignore = g.pick([-100, -100, 0, 1, c - 1])
+        tgt = t.as_tensor(np.asarray(np.abs(to_numpy(tgt)) % c, dtype=np.int64)).reshape(ts)
+        if g.chance(25) and tgt.numel():
+            tgt = tgt.clone()
+            tgt.view(-1)[0] = ignore if ignore >= 0 else -100
+        w = g.tensor([c], dt, "pos") if g.chance(40) else None
+        red = g.pick([0, 1, 2])
+        if form == "nll_loss_forward":
+            return [x, tgt, w, red, ignore], {}
+        args = [x, tgt]
+        if g.chance(80):
+            args += [w, red, ignore]
+            if form == "cross_entropy" and g.chance(50):
+                args.append(g.pick([0.0, 0.1, 0.5]))
+        return args, {}
+    if form == "hardtanh_backward":
+        dt = g.dt("F")
+        s = g.shape()
+        return [g.tensor(s, dt, "small"), g.tensor(s, dt, "small"), g.pick([-1.0, -1, 0.0, -2.5]), g.pick([1.0, 1, 0.5, 2.5])], {}
+    if form == "index_put":
+        dt = g.dt("FI")
+        s = g.shape(min_rank=1, max_rank=3, dims=DIMS_NZ)
+        k = g.i(1, len(s))
+        bs = g.pick([[], [1], [2], [3], [2, 2]])
+        idx = []
+        for j in range(k):
+            if g.chance(20) and k > 1 and j < k - 1:
+                idx.append(None)
+            else:
+                idx.append(_index_tensor(g, bs if g.chance(80) else [], s[j], allow_neg=not p.get("unsafe")))
+        while idx and idx[-1] is None:
+            idx.pop()
+        if not idx:
+            idx = [_index_tensor(g, bs, s[0])]
+        acc = g.chance(40)
+        if not acc:  # without accumulate, duplicate targets are undefined: use distinct first-axis indices
+            j0 = next(j for j, v in enumerate(idx) if v is not None)
+            m = int(np.prod(bs)) if bs else 1
+            if m <= s[j0]:
+                perm = np.asarray(g.perm(range(s[j0]))[:m], dtype=np.int64).reshape(bs)
+                idx = [None if v is None else (t.as_tensor(perm) if j == j0 else v) for j, v in enumerate(idx)]
+            else:
+                acc = True
+        x = g.tensor(s, dt, "small")
+        full = list(x[tuple(slice(None) if v is None else v for v in idx)].shape)
+        vshape = g.pick([full, full, [], g.bshape(full)])
+        values = g.tensor(vshape, dt, "small")
+        args = [x, idx, values]
+        if acc or g.b():
+            args.append(acc)
+        return args, {}
+    if form == "masked_scatter":
+        dt = g.dt("FI")
+        s = g.shape(dims=DIMS_NZ if g.chance(80) else DIMS)
+        ms = g.pick([s, s, g.bshape(s)])
+        mask = g.tensor(ms, "bool")
+        n = int(np.prod(s)) if s else 1
+        src = g.tensor([n + g.pick([0, 0, 2])], dt, "small") if g.b() else g.tensor(s if n else [0], dt, "small")
+        return [g.tensor(s, dt, "small"), mask, src], {}
+    if form in ("prims_sum", "prims_var"):
+        dt = g.dt("F" if form == "prims_var" else "FI")
+        s = g.shape(min_rank=1, dims=DIMS_NZ if form == "prims_var" else DIMS)
+        dims = sorted(d % len(s) for d in g.dims(len(s), min_n=1))
+        if form == "prims_sum":
+            return [g.tensor(s, dt, "small"), dims], {}
+        return [g.tensor(s, dt, "small"), dims] + ([g.pick([1.0, 0.0, 1, 0])] if g.chance(80) else []), {}
+    if form == "det":
+        dt = g.dt(["float32", "float64"])
+        n = g.pick([1, 2, 3, 4])
+        lead = [g.pick([1, 2, 3])] * g.pick([0, 0, 1])
+        g.tol_scale = 50.0
+        return [g.tensor(lead + [n, n], dt, "smooth")], {}
+    if form == "upsample":
+        nd, mode, vec = p["nd"], p["mode"], p.get("vec", False)
+        dt = g.dt("F32")
+        n, c = g.pick([1, 2]), g.pick([1, 2])
+        sp = [g.pick([1, 2, 3, 4]) for _ in range(nd)]
+        x = g.tensor([n, c] + sp, dt, "smooth")
+        out = [g.pick([1, 2, 3, 5, 6, 8]) for _ in range(nd)]
+        if g.chance(50):
+            out = [d * g.pick([1, 2, 3]) for d in sp]
+        ac = [] if mode == "nearest" else [g.b()]
+        if vec:
+            if g.b():
+                return [x, out] + ac + [None], {}
+            return [x, None] + ac + [[float(g.pick([1.0, 2.0, 1.5, 0.5, 3.0])) for _ in range(nd)]], {}
+        args = [x, out] + ac
+        if g.chance(30):
+            args += [None] * nd if g.b() else [float(o) / float(d) for o, d in zip(out, sp)]
+        return args, {}
+    if form == "is_nonzero":
+        dt = g.dt("FIUB")
+        return [g.tensor(g.pick([[], [1], [1, 1]]), dt, "small")], {}
+    if form in ("equal", "allclose"):
+        dt = g.dt("FI" if form == "equal" else "F")
+        s = g.shape()
+        a = g.tensor(s, dt, "small")
+        b = a.clone() if g.chance(50) else g.tensor(s if g.chance(80) else g.shape(), dt, "small")
+        if form == "equal":
+            return [a, b], {}
+        if g.chance(40) and b.numel():
+            b = b + 1e-7
+        args = [a, b if tuple(b.shape) == tuple(a.shape) else a.clone()]
+        if g.chance(60):
+            args += [g.pick([1e-5, 1e-3, 0.0]), g.pick([1e-8, 1e-2, 0.0])]
+            if g.b():
+                args.append(g.b())
+        return args, {}
+    if form == "pool3d":
+        return g_pool(g, {"form": p["kind"], "nd": 3})
+    if form == "repeat_interleave":
+        rep = t.as_tensor(np.asarray([g.pick([0, 1, 1, 2, 3]) for _ in range(g.pick([0, 1, 2, 3, 4]))], dtype=np.int64 if g.b() else np.int32))
+        kwargs = {}
+        if g.chance(50):
+            kwargs["output_size"] = int(rep.sum())
+        return [rep], kwargs
+    if form == "dropout_eval":
+        dt = g.dt("F")
+        x = g.tensor(g.shape(dims=DIMS_NZ if p.get("native") else DIMS), dt, "small")  # native_dropout of an empty tensor: ATen's mask is empty_like(input)
+        if p.get("native"):
+            return [x, g.pick([0.0, 0.5, 1.0]), False], {}
+        if g.b():
+            return [x, g.pick([0.0, 0.3, 0.9]), False], {}
+        return [x, 0.0, True], {}
+    if form == "copy":
+        dt = g.dt("FI")
+        s = g.shape()
+        src = g.tensor(g.pick([s, s, g.bshape(s)]), dt if g.chance(70) else g.dt("FI"), "small")
+        return [g.tensor(s, dt, "small"), src] + ([g.b()] if g.chance(30) else []), {}
+    if form == "bilinear":
+        dt = g.dt("F32")
+        n, a, b, o = g.pick([1, 2, 3]), g.pick([1, 2, 3]), g.pick([1, 2, 4]), g.pick([1, 2, 3])
+        lead = [n] + ([g.pick([1, 2])] if g.chance(30) else [])
+        args = [g.tensor(lead + [a], dt, "small"), g.tensor(lead + [b], dt, "small"), g.tensor([o, a, b], dt, "small")]
+        if g.chance(60):
+            args.append(g.tensor([o], dt, "small") if g.chance(80) else None)
+        return args, {}
+    if form == "grid_sampler":
+        dt = g.dt("F32")
+        n, c = g.pick([1, 2]), g.pick([1, 2])
+        x = g.tensor([n, c, g.pick([2, 3, 4]), g.pick([2, 3, 4])], dt, "smooth")
+        grid = g.tensor([n, g.pick([1, 2, 3]), g.pick([1, 2, 3]), 2], dt, "unit")
+        return [x, grid, g.pick([0, 1, 2]), g.pick([0, 1, 2]), g.b()], {}
+    if form == "atleast":
+        dt = g.dt("FI")
+        return [[g.tensor(g.shape(max_rank=4), dt, "small") for _ in range(g.pick([1, 2, 3]))]], {}
+    if form == "sdpa":
+        dt = g.dt("F32")
+        b, h, lq, lk, e, ev = g.pick([1, 2]), g.pick([1, 2]), g.pick([1, 2, 3]), g.pick([1, 2, 4]), g.pick([2, 4]), g.pick([2, 3])
+        lead = [b, h]  # the function asserts 4-D query/key/value (its declared domain)
+        q, k, v = g.tensor(lead + [lq, e], dt, "smooth"), g.tensor(lead + [lk, e], dt, "smooth"), g.tensor(lead + [lk, ev], dt, "smooth")
+        args, kwargs = [q, k, v], {}
+        causal = g.chance(30)
+        if not causal and g.chance(50):
+            mk = g.pick(["bool", "float"])
+            ms = g.pick([[lq, lk], lead + [lq, lk], [1, lk]])
+            m = g.tensor(ms, "bool") if mk == "bool" else g.tensor(ms, dt, "small")
+            if mk == "bool":
+                m = m.clone()
+                m[..., 0] = True  # a fully masked row is NaN in torch by definition of softmax over -inf: keep one key per row
+            args.append(m)
+        elif causal or g.b():
+            args.append(None)
+        if len(args) == 4 and (causal or g.b()):
+            args += [0.0, causal]
+        if g.chance(40):
+            kwargs["scale"] = g.pick([None, 1.0, 0.5, 0.125])
+        g.tol_scale = 10.0
+        return args, kwargs
+    if form == "histc":
+        dt = g.dt(["float32", "float64"])
+        x = g.tensor(g.shape(dims=DIMS_NZ), dt, "small")
+        args = [x]
+        if g.chance(85):
+            args.append(g.pick([1, 2, 4, 10]))
+            if g.chance(70):
+                lo = g.pick([0, -2, -5.5, 0.5])
+                args += [lo, g.pick([0 if lo == 0 else lo + 4, lo + 1, lo + 10.5])]
+        return args, {}
+    if form == "bincount":
+        n = g.pick([0, 1, 3, 6])
+        x = t.as_tensor(np.asarray([g.pick([0, 1, 2, 2, 5]) for _ in range(n)], dtype=np.int64 if g.b() else np.int32))
+        args = [x]
+        if g.chance(60):
+            args.append(g.tensor([n], g.dt("F"), "small") if g.chance(50) else None)
+            if g.chance(60):
+                args.append(g.pick([0, 3, 8]))
+        return args, {}
+    if form in ("im2col", "col2im"):
+        dt = g.dt("F32")
+        n, c = g.pick([1, 2]), g.pick([1, 2])
+        k = [g.pick([1, 2, 3]), g.pick([1, 2, 3])]
+        dil, pad, stride = [g.pick([1, 1, 2])] * 2, [g.pick([0, 0, 1])] * 2, [g.pick([1, 1, 2])] * 2
+        hw = [g.pick([3, 4, 5, 6]), g.pick([3, 4, 5, 6])]
+        batched = g.chance(80)
+        if form == "im2col":
+            return [g.tensor(([n] if batched else []) + [c] + hw, dt, "small"), k, dil, pad, stride], {}
+        L = 1
+        for d in range(2):
+            L *= (hw[d] + 2 * pad[d] - dil[d] * (k[d] - 1) - 1) // stride[d] + 1
+        if L <= 0:
+            hw, dil, pad, stride, L = [4, 4], [1, 1], [0, 0], [1, 1], (4 - k[0] + 1) * (4 - k[1] + 1)
+        return [g.tensor(([n] if batched else []) + [c * k[0] * k[1], L], dt, "small"), hw, k, dil, pad, stride], {}
+    raise AssertionError(form)
+
+
+
 # ----------------------------------------------------------------------------- the OPS table
 OPS = {}
 
@@ -2031,11 +2335,69 @@ _reg(_aten("conv1d"), g_conv, form="convnd", nd=1)
 _reg(_aten("conv2d"), g_conv, form="convnd", nd=2)
 _reg(_aten("convolution"), g_conv, form="conv", nd=2)
 
+# --- coverage extension: overloads outside the original families
+_reg(_aten("addcmul"), g_misc, form="addcmul")
+_reg(_aten("addcdiv"), g_misc, form="addcdiv")
+_reg(_aten("lerp.Scalar"), g_misc, form="lerp_s")
+_reg(_aten("lerp.Tensor"), g_misc, form="lerp_t")
+_reg(_aten("glu"), g_misc, form="glu")
+_reg(_aten("prelu"), g_misc, form="prelu")
+_reg(_aten("_prelu_kernel"), g_misc, form="prelu", kernel=True)
+_reg(_aten("cross"), g_misc, form="cross")
+_reg(_aten("linalg_cross"), g_misc, form="cross", linalg=True)
+_reg(_aten("mse_loss"), g_misc, form="mse_loss")
+_reg(_aten("pixel_shuffle"), g_misc, form="pixel_shuffle")
+_reg(_aten("pixel_unshuffle"), g_misc, form="pixel_unshuffle")
+_reg(_aten("einsum"), g_misc, form="einsum")
+_reg(_aten("instance_norm"), g_misc, form="instance_norm")
+_reg(_aten("nll_loss"), g_misc, form="nll_loss")
+_reg(_aten("nll_loss_forward"), g_misc, form="nll_loss_forward")
+_reg(_aten("cross_entropy_loss"), g_misc, form="cross_entropy")
+_reg(_aten("hardtanh_backward"), g_misc, form="hardtanh_backward")
+_reg(_aten("index_put"), g_misc, form="index_put")
+_reg(_aten("_unsafe_index_put"), g_misc, form="index_put", unsafe=True)
+_reg(_aten("masked_scatter"), g_misc, form="masked_scatter")
+_reg("prims::sum", g_misc, form="prims_sum")
+_reg("prims::var", g_misc, form="prims_var")
+_reg(_aten("det linalg_det logdet _linalg_det"), g_misc, form="det")
+_reg(_aten("upsample_nearest1d"), g_misc, form="upsample", nd=1, mode="nearest")
+_reg(_aten("upsample_nearest2d"), g_misc, form="upsample", nd=2, mode="nearest")
+_reg(_aten("upsample_nearest3d"), g_misc, form="upsample", nd=3, mode="nearest")
+_reg(_aten("upsample_nearest1d.vec"), g_misc, form="upsample", nd=1, mode="nearest", vec=True)
+_reg(_aten("upsample_nearest2d.vec"), g_misc, form="upsample", nd=2, mode="nearest", vec=True)
+_reg(_aten("upsample_nearest3d.vec"), g_misc, form="upsample", nd=3, mode="nearest", vec=True)
+_reg(_aten("upsample_linear1d"), g_misc, form="upsample", nd=1, mode="linear")
+_reg(_aten("upsample_bilinear2d upsample_bicubic2d"), g_misc, form="upsample", nd=2, mode="linear")
+_reg(_aten("upsample_bilinear2d.vec upsample_bicubic2d.vec"), g_misc, form="upsample", nd=2, mode="linear", vec=True)
+_reg(_aten("upsample_trilinear3d"), g_misc, form="upsample", nd=3, mode="linear")
+_reg(_aten("upsample_trilinear3d.vec"), g_misc, form="upsample", nd=3, mode="linear", vec=True)
+_reg(_aten("is_nonzero"), g_misc, form="is_nonzero")
+_reg(_aten("equal"), g_misc, form="equal")
+_reg(_aten("allclose"), g_misc, form="allclose")
+_reg(_aten("avg_pool3d"), g_misc, form="pool3d", kind="avg")
+_reg(_aten("max_pool3d max_pool3d_with_indices"), g_misc, form="pool3d", kind="max")
+_reg(_aten("max_pool1d_with_indices"), g_pool, form="max", nd=1)
+_reg(_aten("conv3d"), g_conv, form="convnd", nd=3)
+_reg(_aten("reflection_pad3d"), g_pad, form="reflect", nd=3)
+_reg(_aten("replication_pad3d"), g_pad, form="replicate", nd=3)
+_reg(_aten("repeat_interleave.Tensor"), g_misc, form="repeat_interleave")
+_reg(_aten("dropout"), g_misc, form="dropout_eval")
+_reg(_aten("native_dropout"), g_misc, form="dropout_eval", native=True)
+_reg(_aten("copy"), g_misc, form="copy")
+_reg(_aten("bilinear"), g_misc, form="bilinear")
+_reg(_aten("grid_sampler grid_sampler_2d"), g_misc, form="grid_sampler")
+_reg(_aten("atleast_1d.Sequence atleast_2d.Sequence atleast_3d.Sequence"), g_misc, form="atleast")
+_reg(_aten("scaled_dot_product_attention"), g_misc, form="sdpa")
+_reg(_aten("histc"), g_misc, form="histc")
+_reg(_aten("bincount"), g_misc, form="bincount")
+_reg(_aten("im2col"), g_misc, form="im2col")
+_reg(_aten("col2im"), g_misc, form="col2im")
+
 FAMILY = {g_unary: "unary", g_unary_attrs: "unary", g_binary: "binary", g_pow: "binary", g_shift: "bitwise", g_isclose: "binary",
           g_reduce_full: "reduce", g_reduce_dimlist: "reduce", g_reduce_dim: "reduce", g_argreduce: "reduce", g_vector_norm: "reduce",
           g_softmax: "softmax", g_layer_norm: "norm", g_group_norm: "norm", g_batch_norm: "norm", g_matmul: "matmul", g_view: "view",
           g_cat: "index", g_split: "index", g_slice: "index", g_index: "index", g_creation: "creation", g_clamp: "clamp", g_cast: "cast",
-          g_pad: "padpoolconv", g_pool: "padpoolconv", g_conv: "padpoolconv"}
+          g_pad: "padpoolconv", g_pool: "padpoolconv", g_conv: "padpoolconv", g_misc: "misc"}
 
 
 def family_of(qname):
